@@ -206,8 +206,15 @@ def classify_crash(ex):
             return None
         inner_pkg = tb[last_x]
     key = 'crash:{}:{}:{}'.format(type(ex).__name__, os.path.basename(inner_pkg.filename), inner_pkg.name)
-    msg = 'code under test raised {}: {}'.format(type(ex).__name__, str(ex)[:300])
-    detail = ''.join(traceback.format_exception(type(ex), ex, ex.__traceback__))[-3000:]
+    try:
+        text = str(ex)[:300]
+    except Exception:   # noqa  (exceptions whose __str__ raises are generated on purpose)
+        text = '<unprintable>'
+    msg = 'code under test raised {}: {}'.format(type(ex).__name__, text)
+    try:
+        detail = ''.join(traceback.format_exception(type(ex), ex, ex.__traceback__))[-3000:]
+    except Exception:   # noqa
+        detail = ''.join(traceback.format_tb(ex.__traceback__))[-3000:]
     return Violation(key, msg, detail)
 
 
